@@ -245,7 +245,7 @@ class DotExporter:
             yield '%s"%s"%s;' % (indent, DotExporter.esc(nodename), nodeattr)
 
     def __iter_edges(self, indent, nodenamefunc, edgeattrfunc, edgetypefunc, filter_):
-        maxlevel = self.maxlevel - 1 if self.maxlevel else None
+        maxlevel = self.maxlevel - 1 if self.maxlevel is not None else None
         for node in PreOrderIter(self.node, filter_=filter_, stop=self.stop, maxlevel=maxlevel):
             nodename = nodenamefunc(node)
             for child in node.children:
